@@ -15,6 +15,7 @@ import (
 
 	"github.com/cosmos72/gomacro/base"
 	"github.com/cosmos72/gomacro/fast"
+	"github.com/cosmos72/gomacro/go/etoken"
 
 	"gmverif/internal/tr"
 )
@@ -80,6 +81,15 @@ func runProgFast(p *Prog) *Result {
 		fast.VerifSetPoison(true)
 	} else {
 		fast.VerifSetPoison(false)
+	}
+	// like the gomacro command, enable generics "contracts are interfaces" unless told otherwise
+	switch p.Mode["generics"] {
+	case "none":
+		etoken.GENERICS = etoken.GENERICS_NONE
+	case "cxx":
+		etoken.GENERICS = etoken.GENERICS_V1_CXX
+	default:
+		etoken.GENERICS = etoken.GENERICS_V2_CTI
 	}
 	ir := newQuietInterp()
 	if o := p.Mode["options"]; o != "" {
